@@ -952,9 +952,11 @@ fn scenario<F: Sc>(em: &mut Em, rng: &mut Rng, rows: &[Vec<f64>], d: usize, latt
             vec![1.0]
         };
         let mut rs: Vec<F> = vec![];
-        for _ in 0..(if em.thorough() { 3 } else { 2 }) {
+        // large clouds: four radii, the first two exactly on a distance (a border defect behind a size
+        // threshold needs a point ON the radius)
+        for ri in 0..(if big { 4 } else if em.thorough() { 3 } else { 2 }) {
             let base = *rng.pick(&dists);
-            let r = match rng.below(9) {
+            let r = match if big && ri < 2 { 1 } else { rng.below(9) } {
                 0 => 0.0,
                 1 | 2 | 3 => base,
                 4 => {
